@@ -54,6 +54,12 @@ CHECKS["C07"] = dict(
     note="Point-detector results carry no x/y coordinates in HoloPy; they are matched to the input points by order. Continuous geometry concretised on a 0.1 lattice.",
     ref="5 C07")
 
+CHECKS["C10"] = dict(
+    technique="TLA+ spec TmatrixProc.tla (process-level liveness model + state-merging orientation model) model-checked by TLC; call classes executed in child interpreters and their recorded outcomes validated by TmatrixProcTrace.tla; orientation edges and sphere-limit/mirror relations replayed",
+    text="TLC enumerates shape (oblate/prolate/equal spheroid, flat/long cylinder, sphere) x five size classes up to beyond the solver's limit x absorbing x 3x9x9 Euler-angle classes incl. negative angles, exact multiples of pi/2 and angles beyond 2 pi; the only forbidden outcome is that the process dies. A covering sample (160 classes quick, ~1900 thorough) is executed in child interpreters with sentinels and the recorded outcomes are validated by a TLC trace spec (never died; finite where the spec requires). Orientation identities (spin about own axis, axis reversal, negated beta, full turns) are replayed along every edge of the state-merging model (holograms and scattering matrices equal to 1e-10). Sphere limit (fields and S vs far-field Mie at random azimuths, equal-axes spheroid, inside the lens wrapper) and mirror symmetry are recorded relations validated by TLC.",
+    note="Liveness is decided per executed call class, not for all reals; sizes concretised per class. The check wrapper treats a harness process that ends without evidence as a machinery failure, never as a pass.",
+    ref="5 C10")
+
 NOT_APPLICABLE = []
 
 
